@@ -35,10 +35,26 @@
        combination of the files' rows, hence C17_structured_union / C17_structured_order; C17_roundtrip_exporter:
        by C08's theorem, whenever the combination satisfies C08's wf_mdomain (evaluated on every structured case
        of the run, Corr/C17s.v) the exporter model's text is read back with the same vocabulary, name and
-       requirements. *)
+       requirements.
+     - COMPOSED with C08 (round 3, Proofs/C17_Compose.v): the hypothesis about the combination is discharged.
+       C17_wellformed_structured: when every agent file satisfies C08's wf_mdomain, the files agree on the parent
+       of every shared type and a function declared by two files has the same number of parameters in both, then
+       the combination (with or without the dummy actions) satisfies wf_mdomain - nothing is assumed about
+       constants, predicates or actions declared by several files (the file found last wins, and what wins is
+       well-formed in the combination).  Hence C17_roundtrip: the exporter model's text of the combination is read
+       back as rr_domain of the combination (C08_roundtrip), same vocabulary, name, requirements; and
+       C17_roundtrip_parsed, from text to text: for agent files that are texts the parser accepts (PDDL section
+       order, no empty quantifier, hygienic names: C08_range_domain establishes wf_mdomain), under C08's two
+       hypotheses about float().  C17_example_compose: satisfiable by two overlapping files (private block, a
+       function declared with different parameter names, numeric conditions, a constant of the root type written
+       bare / `- object`, both discovery orders).
+       The PROBLEM half stays relative (C17_roundtrip_problems): C09_roundtrip speaks about a problem object that IS
+       the parser's result on a text (its proof goes through the text's reading), and the combination of several
+       parsed problems is not presented as one; it is tied by correspondence instead: every run exports every
+       combination with the real ProblemExporter, parses it back and compares every section inside Coq. *)
 From Coq Require Import List String Permutation.
-From Verif Require Import Base.Result Base.Str Base.PyDict Model.Domain Model.DomainExporter Model.CombineDomains
-  Proofs.C08_Defs Corr.Core Proofs.C17_Structured.
+From Verif Require Import Base.Result Base.Str Base.PyDict Model.NumExpr Model.Domain Model.DomainExporter Model.CombineDomains
+  Proofs.C08_Defs Proofs.C08_Range Proofs.C08_RangeDom Proofs.C08_Main Corr.Core Proofs.C17_Structured Proofs.C17_Compose.
 From Verif Require Import Model.Combine Spec.Combine
   Proofs.C17_Dict Proofs.C17_Domains Proofs.C17_Problems Proofs.C17_Store Proofs.C17_Checkers
   Proofs.C17_WellFormed.
@@ -214,6 +230,54 @@ Theorem C17_example_structured :
     wf_mdomain exs_num 2 4 (locate_mdomains false [fb; fa]) = true.
 Proof. exact exs_structured. Qed.
 
+(* ---------------------------------------------------------------- composed with C08: nothing assumed of the combination *)
+Theorem C17_wellformed_structured : forall (num : numparser) (dpre deff : nat) (dummy : bool) (files : list mdomain),
+  (forall f, In f files -> wf_mdomain num dpre deff f = true) ->
+  agree (map Domain.d_types files) -> same_arity (map Domain.d_funcs files) ->
+  wf_mdomain num dpre deff (locate_mdomains dummy files) = true.
+Proof. exact C17_wellformed_structured_lemma. Qed.
+
+Theorem C17_roundtrip : forall (num : numparser) (dpre deff : nat) (dummy : bool) (files : list mdomain),
+  (forall f, In f files -> wf_mdomain num dpre deff f = true) ->
+  agree (map Domain.d_types files) -> same_arity (map Domain.d_funcs files) ->
+  let c := locate_mdomains dummy files in
+  parse_domain num (export_domain dpre deff c) = Ok (rr_domain num dpre deff c) /\
+  model_vocab (rr_domain num dpre deff c) = model_vocab c /\
+  Domain.d_name (rr_domain num dpre deff c) = Domain.d_name c /\
+  Domain.d_reqs (rr_domain num dpre deff c) = Domain.d_reqs c.
+Proof. exact C17_roundtrip_lemma. Qed.
+
+(* [parsed_agent_file num e m]: e is in PDDL's section order (canonical), has no empty quantifier (no_vac), the model's
+   parser returns m for it, and m's names are hygienic (the hypotheses of C08_range_domain) *)
+Theorem C17_roundtrip_parsed : forall (num : numparser) (dpre deff : nat),
+  (forall d, d = dpre \/ d = deff -> forall s x, num s = Some x -> num_ok num d x = true) ->
+  (forall c r x, num (String c r) = Some x -> str_in (String c EmptyString) comparison_ops = false) ->
+  forall (dummy : bool) (texts : list Sexp.sexp) (files : list mdomain),
+  Forall2 (parsed_agent_file num) texts files ->
+  agree (map Domain.d_types files) -> same_arity (map Domain.d_funcs files) ->
+  let c := locate_mdomains dummy files in
+  wf_mdomain num dpre deff c = true /\
+  parse_domain num (export_domain dpre deff c) = Ok (rr_domain num dpre deff c) /\
+  model_vocab (rr_domain num dpre deff c) = model_vocab c.
+Proof. exact C17_roundtrip_parsed_lemma. Qed.
+
+Theorem C17_rows_types_agree : forall files : list mdomain,
+  agree (map (fun m => Combine.d_types (rows_of m)) files) -> agree (map Domain.d_types files).
+Proof. exact rows_types_agree. Qed.
+
+Theorem C17_example_compose :
+  (forall d, d = 2 \/ d = 4 -> forall s x, ex_num s = Some x -> num_ok ex_num d x = true) /\
+  (forall c r x, ex_num (String c r) = Some x -> str_in (String c EmptyString) comparison_ops = false) /\
+  Forall2 (parsed_agent_file ex_num) [exc_sexp exc_text_a; exc_sexp exc_text_b] [exc_file exc_text_a; exc_file exc_text_b] /\
+  agree (map Domain.d_types [exc_file exc_text_a; exc_file exc_text_b]) /\
+  same_arity (map Domain.d_funcs [exc_file exc_text_a; exc_file exc_text_b]) /\
+  dget (Domain.d_funcs (exc_file exc_text_a)) "fuel" <> dget (Domain.d_funcs (exc_file exc_text_b)) "fuel" /\
+  Domain.d_consts (locate_mdomains true [exc_file exc_text_a; exc_file exc_text_b]) = [("hq", "loc"); ("tok", "object")] /\
+  Domain.d_consts (locate_mdomains true [exc_file exc_text_b; exc_file exc_text_a]) = [("tok", "object"); ("hq", "loc")] /\
+  dkeys (Domain.d_actions (locate_mdomains true [exc_file exc_text_a; exc_file exc_text_b])) =
+    ["move"; "fly"; M_DUMMY_ADD; M_DUMMY_DEL].
+Proof. exact (conj ex_num_closed (conj ex_num_cmp exc_compose)). Qed.
+
 (* ---------------------------------------------------------------- the four parts of the property under their short names *)
 Theorem C17_union :
   (forall (defaults : alist) (files : list domainv),
@@ -286,6 +350,11 @@ Print Assumptions C17_structured_union.
 Print Assumptions C17_structured_order.
 Print Assumptions C17_roundtrip_exporter.
 Print Assumptions C17_example_structured.
+Print Assumptions C17_wellformed_structured.
+Print Assumptions C17_roundtrip.
+Print Assumptions C17_roundtrip_parsed.
+Print Assumptions C17_rows_types_agree.
+Print Assumptions C17_example_compose.
 Print Assumptions C17_union_checker_sound.
 Print Assumptions C17_weak_union_checker_sound.
 Print Assumptions C17_set_union_checker_sound.
